@@ -642,6 +642,41 @@ func c10Views(tier string) []c10View {
 	} {
 		views = append(views, mkView(fmt.Sprintf("E8/%d", i), sh.lines, sh.outs, sh.want, true))
 	}
+	// E9: one operator node evaluated on operands of different kinds from element to element (a null attribute in
+	// the first, middle or last element): == null, != null, membership in a null / non-null list
+	for i, order := range [][]int{{1, 2, 3}, {2, 1, 3}, {1, 3, 2}} {
+		var ids []string
+		for _, x := range order {
+			ids = append(ids, fmt.Sprint(x))
+		}
+		lines := []string{
+			"let items = [" + strings.Join(ids, ", ") + "] -> <sequence of item> (i:",
+			"  id = i",
+			`  tag = if i == 2 then null else "t"`,
+			`  labels = if i == 2 then null else ["a", "b"]`,
+			")",
+			"o0 = items -> <sequence of flag> (item:",
+			"  id = item.id",
+			"  untagged = item.tag == null",
+			")",
+			"o1 = items -> <sequence of flag> (item:",
+			"  id = item.id",
+			`  hasA = "a" in item.labels`,
+			")",
+			"o2 = items -> <sequence of flag> (item:",
+			"  id = item.id",
+			`  isT = item.tag == "t"`,
+			")",
+		}
+		var w0, w1, w2 []string
+		for _, x := range order {
+			w0 = append(w0, fmt.Sprintf("(id:%d,untagged:%v)", x, x == 2))
+			w1 = append(w1, fmt.Sprintf("(hasA:%v,id:%d)", x != 2, x))
+			w2 = append(w2, fmt.Sprintf("(id:%d,isT:%v)", x, x != 2))
+		}
+		views = append(views, mkView(fmt.Sprintf("E9/%d", i), lines, []string{"o0", "o1", "o2"},
+			[]string{"[" + strings.Join(w0, ",") + "]", "[" + strings.Join(w1, ",") + "]", "[" + strings.Join(w2, ",") + "]"}, true))
+	}
 	// E4: nested transforms over list / set / map with each result type
 	for i, s := range []shadow{
 		{[]string{"o0 = [1, 2, 2] -> <sequence of int> (x:", "  v = x * 2", ")"}, []string{"o0"}, []string{"[(v:2),(v:4),(v:4)]"}},
